@@ -36,24 +36,39 @@ class R:
         self.cid = contract_ident
         self._iface_items = {}
         self._contract_item = None
+        gs = prog.get("generics") or []
+        self.gnames = [g["name"] for g in gs]
+        self.gdecl = ("<" + ", ".join(self.gnames) + ">") if gs else ""
+        self.gwhere = ""
+        if gs:
+            preds = [f"{g['name']}: svmon::Param + " + (g["extra_bound"] + " + " if g.get("extra_bound") else "") + "'static" for g in gs]
+            self.gwhere = " where " + ", ".join(preds)
+        # concrete contract type, usable in type and expression position
+        self.ct = contract_ident + (("::<" + ", ".join(g["concrete"] for g in gs) + ">") if gs else "")
 
     # ---------------------------------------------------------- source
     def ty(self, ti):
         return self.p["types"][ti].rust
 
-    def _params(self, h, with_attrs=True):
+    def cty(self, ti):
+        return self.p["types"][ti].concrete
+
+    def tty(self, ti):
+        return self.p["types"][ti].trait_rust
+
+    def _params(self, h, with_attrs=True, in_trait=False):
         out = []
         for a in h["args"]:
             attrs = "".join(f"#[{x}] " for x in a.get("attrs", [])) if with_attrs else ""
-            out.append(f"{attrs}{a['name']}: {self.ty(a['ti'])}")
+            out.append(f"{attrs}{a['name']}: {self.tty(a['ti']) if in_trait else self.ty(a['ti'])}")
         return out
 
     def _echo_args(self, h):
         return "vec![" + ", ".join(f"(\"{a['name']}\", j(&{a['name']}))" for a in h["args"]) + "]"
 
-    def _ret(self, h, m, e):
+    def _ret(self, h, m, e, in_trait=False):
         if h["kind"] == "query":
-            r = self.ty(h["resp_ti"])
+            r = self.tty(h["resp_ti"]) if in_trait else self.ty(h["resp_ti"])
             return f"StdResult<{r}>" if h["ret_err"] == "std" else f"Result<{r}, {e}>"
         return f"StdResult<Response<{m}>>" if h["ret_err"] == "std" else f"Result<Response<{m}>, {e}>"
 
@@ -102,13 +117,15 @@ class R:
         if mode == "assoc":
             items.append("        type ExecC: CustomMsg;")
             items.append("        type QueryC: CustomQuery;")
+        for (an, _) in part.get("assoc", []):
+            items.append(f"        type {an}: svmon::Param;")
         hs = self._ordered(part)
         for h in hs:
             for l in self._msg_attr(h):
                 items.append("        " + l)
             ctx = f"{CTX_OF[h['kind']]}<{q_t}>"
-            params = ", ".join([h.get("self_text", "&self"), f"{h.get('ctx_attr', '')}ctx: {ctx}"] + self._params(h))
-            items.append(f"        fn {h['name']}({params}) -> {self._ret(h, m_t, 'Self::Error')};")
+            params = ", ".join([h.get("self_text", "&self"), f"{h.get('ctx_attr', '')}ctx: {ctx}"] + self._params(h, in_trait=True))
+            items.append(f"        fn {h['name']}({params}) -> {self._ret(h, m_t, 'Self::Error', in_trait=True)};")
         lines += items
         for extra in part.get("extra_items", []):
             lines.append("        " + extra)
@@ -116,11 +133,13 @@ class R:
         self._iface_items[part["id"]] = "\n".join(lines[item_start:])
         lines.append("}")
         # impl on the contract
-        lines.append(f"impl {part['module']}::{part['trait']} for {self.cid} {{")
+        lines.append(f"impl{self.gdecl} {part['module']}::{part['trait']} for {self.cid}{self.gdecl}{self.gwhere} {{")
         lines.append(f"    type Error = {part['error']};")
         if mode == "assoc":
             lines.append(f"    type ExecC = {M};")
             lines.append(f"    type QueryC = {Q};")
+        for (an, at) in part.get("assoc", []):
+            lines.append(f"    type {an} = {at};")
         mi, qi = (M, Q) if mode != "empty" else ("Empty", "Empty")
         for h in hs:
             ctx = f"{CTX_OF[h['kind']]}<{qi}>"
@@ -158,10 +177,17 @@ class R:
         sv = self.sv
         M, Q = cm(p), cq(p)
         c = p["parts"][0]
-        lines = [f"pub struct {self.cid};"]
+        if self.gnames:
+            lines = [f"pub struct {self.cid}{self.gdecl}(std::marker::PhantomData<({', '.join(self.gnames)},)>);"]
+        else:
+            lines = [f"pub struct {self.cid};"]
         attrs = []
         if entry_points:
             ea = p.get("entry_points_args")
+            if ea == "":
+                ea = None
+            elif ea is None and self.gnames:
+                ea = "generics<" + ", ".join(g["concrete"] for g in p["generics"]) + ">"
             attrs.append(f"#[{sv}::entry_points({ea})]" if ea else f"#[{sv}::entry_points]")
         attrs.append(f"#[{sv}::contract]")
         body_attrs = []
@@ -195,14 +221,15 @@ class R:
             lines.append(f"#[{at}]")
         for at in c.get("raw_attrs", []):
             lines.append(at)
-        lines.append(f"impl {self.cid} {{")
+        lines.append(f"impl{self.gdecl} {self.cid}{self.gdecl}{self.gwhere} {{")
         for extra in c.get("extra_items_first", []):
             lines.append("    " + extra)
         nm = p.get("new_mode")
         if nm == "params":
             lines.append(f"    pub fn new(seed: u32) -> Self {{ svmon::note_new(); {self.cid} }}")
         elif nm != "none":
-            lines.append(f"    pub fn new() -> Self {{ svmon::note_new(); {self.cid} }}")
+            val = f"{self.cid}(std::marker::PhantomData)" if self.gnames else self.cid
+            lines.append(f"    pub fn new() -> Self {{ svmon::note_new(); {val} }}")
         for h in self._ordered(c):
             if h["kind"] == "reply":
                 lines += ["    " + l for l in self.reply_handler_src(h)]
@@ -345,10 +372,30 @@ class R:
         return "\n".join(lines) + "\n"
 
     # ---------------------------------------------------------- glue
-    def msg_path(self, part, kind):
+    def msg_generics(self, part, kind):
+        """Concrete types for the generic parameters the message type of (part, kind) carries."""
+        from .spec import used_params
+        names = (part.get("observed_generics") or {}).get(kind)
+        if names is None:
+            names = used_params(self.p, part, kind)
+        if not names:
+            return ""
         if part["id"] == "c":
-            return f"sv::{MSG_OF[kind]}"
-        return f"{part['module']}::sv::{MSG_OF[kind]}"
+            conc = {g["name"]: g["concrete"] for g in self.p.get("generics", [])}
+        else:
+            conc = dict(part.get("assoc_concrete", []))
+        return "::<" + ", ".join(conc[n] for n in names) + ">"
+
+    def msg_path(self, part, kind):
+        g = self.msg_generics(part, kind)
+        if part["id"] == "c":
+            return f"sv::{MSG_OF[kind]}{g}"
+        return f"{part['module']}::sv::{MSG_OF[kind]}{g}"
+
+    def wrap_path(self, kind):
+        gs = self.p.get("generics") or []
+        g = ("::<" + ", ".join(x["concrete"] for x in gs) + ">") if gs else ""
+        return f"sv::{WRAP_OF[kind]}{g}"
 
     def _deps(self, part, kind):
         """Expression for the deps handed to a part-level dispatch."""
@@ -375,7 +422,7 @@ class R:
 
         # canonical encodings per type
         for i, t in enumerate(p["types"]):
-            arm(f"canon:{i}", f"canon_many::<{t.rust}>(a)")
+            arm(f"canon:{i}", f"canon_many::<{t.concrete}>(a)")
         arm("canon:resp", f"canon_many::<Response<{M}>>(a)")
         arm("canon:resp_empty", "canon_many::<Response<Empty>>(a)")
 
@@ -392,13 +439,13 @@ class R:
                 deps = self._deps(part, kind)
                 arm(f"dispatch:{pid}:{kind}",
                     f"let mut c = ctx::<{Q}>(a); let r = (|| {{ let m: {mp} = dec(&c.doc)?; "
-                    f"m.dispatch(&{self.cid}::new(), {self._ctx_tuple(deps, kind)}).map({conv}).map_err(herr) }})(); finish(r, &c)")
+                    f"m.dispatch(&{self.ct}::new(), {self._ctx_tuple(deps, kind)}).map({conv}).map_err(herr) }})(); finish(r, &c)")
                 if kind in KINDS_ENUM:
                     fn = EP_OF[kind] + "_messages"
                     modp = "sv" if pid == "c" else f"{part['module']}::sv"
                     arm(f"names:{pid}:{kind}", f"json!({{\"res\": {{\"ok\": {modp}::{fn}().to_vec()}}}})")
                 for h in hs:
-                    decls = " ".join(f"let a{i}: {self.ty(a['ti'])} = arg(a, {i});" for i, a in enumerate(h["args"]))
+                    decls = " ".join(f"let a{i}: {self.cty(a['ti'])} = arg(a, {i});" for i, a in enumerate(h["args"]))
                     if kind in ("instantiate", "migrate"):
                         lit = f"{mp} {{ " + ", ".join(f"{a['name']}: a{i}.clone()" for i, a in enumerate(h["args"])) + " }"
                         ctor = f"Some({mp}::new(" + ", ".join(f"a{i}" for i in range(len(h["args"]))) + "))"
@@ -415,13 +462,13 @@ class R:
                         "\"eq\": ctor.as_ref().map(|c| c == &lit), \"debug\": format!(\"{:?}\", lit)}}})")
 
         for kind in KINDS_ENUM:
-            w = f"sv::{WRAP_OF[kind]}"
+            w = self.wrap_path(kind)
             conv = "bin_json" if kind == "query" else "resp_json"
             deps = "c.deps.as_ref()" if kind == "query" else "c.deps.as_mut()"
             arm(f"parsew:{kind}", f"parse::<{w}>(a)")
             arm(f"dispatchw:{kind}",
                 f"let mut c = ctx::<{Q}>(a); let r = (|| {{ let m: {w} = dec(&c.doc)?; "
-                f"m.dispatch(&{self.cid}::new(), {self._ctx_tuple(deps, kind)}).map({conv}).map_err(herr) }})(); finish(r, &c)")
+                f"m.dispatch(&{self.ct}::new(), {self._ctx_tuple(deps, kind)}).map({conv}).map_err(herr) }})(); finish(r, &c)")
 
         # entry points and multitest Contract impl
         eps = self.entry_point_kinds()
@@ -451,7 +498,7 @@ class R:
             else:
                 call = f"{tr}::{ep}(&k, {deps}, c.env.clone(), c.doc.clone())"
             arm(f"mtc:{ep}",
-                f"let mut c = ctx::<{Q}>(a); let k = {self.cid}::new(); let r = {call}.map({conv}).map_err(aerr); finish(r, &c)")
+                f"let mut c = ctx::<{Q}>(a); let k = {self.ct}::new(); let r = {call}.map({conv}).map_err(aerr); finish(r, &c)")
 
         arms_before = len(arms)
         self.helper_arms(arm)
@@ -495,13 +542,13 @@ class R:
         arm("reply_ids", f"json!({{\"res\": {{\"ok\": {{ {ids} }} }} }})")
         arm("dispatch_reply",
             f"let mut c = ctx::<{Q}>(a); let rep: Reply = svmon::serde_json::from_value(a[\"reply\"].clone()).expect(\"reply\"); "
-            f"let r = sv::dispatch_reply(c.deps.as_mut(), c.env.clone(), rep, {self.cid}::new()).map(resp_json).map_err(herr); finish(r, &c)")
+            f"let r = sv::dispatch_reply(c.deps.as_mut(), c.env.clone(), rep, {self.ct}::new()).map(resp_json).map_err(herr); finish(r, &c)")
         for n, info in tb["names"].items():
             if info["payload"] == "raw":
                 decls = "let a0: Binary = arg(a, 0);"
                 args = "a0"
             else:
-                decls = " ".join(f"let a{i}: {self.ty(ti)} = arg(a, {i});" for i, ti in enumerate(info["payload"]))
+                decls = " ".join(f"let a{i}: {self.cty(ti)} = arg(a, {i});" for i, ti in enumerate(info["payload"]))
                 args = ", ".join(f"a{i}" for i in range(len(info["payload"])))
             for recv, ty in (("submsg", f"{sv}::cw_std::SubMsg<{M}>"), ("wasm", f"{sv}::cw_std::WasmMsg"), ("cosmos", f"{sv}::cw_std::CosmosMsg<{M}>")):
                 arm(f"builder:{n}:{recv}",
@@ -515,13 +562,13 @@ class R:
         M, Q = cm(p), cq(p)
         pn = p["name"]
         BA = f"{sv}::cw_multi_test::BasicApp<{M}, {Q}>"
-        CID = f"sv::mt::CodeId<'static, {self.cid}, {BA}>"
+        CID = f"sv::mt::CodeId<'static, {self.ct}, {BA}>"
         app = f"let app = st.app::<{M}, {Q}>(a);"
         arm("mt:store", f"{app} let cid: {CID} = sv::mt::CodeId::store_code(app); let id = cid.code_id(); "
             f"st.any.insert(format!(\"cid:{{}}:{pn}:{{}}\", a[\"world\"], id), Box::new(cid)); svmon::mt::ok(json!({{\"code_id\": id}}))")
-        arm("mt:store_raw", f"{app} let id = app.app_mut().store_code(Box::new({self.cid}::new())); svmon::mt::ok(json!({{\"code_id\": id}}))")
+        arm("mt:store_raw", f"{app} let id = app.app_mut().store_code(Box::new({self.ct}::new())); svmon::mt::ok(json!({{\"code_id\": id}}))")
         inst = [h for h in p["parts"][0]["handlers"] if h["kind"] == "instantiate"][0]
-        decls = " ".join(f"let a{i}: {self.ty(a['ti'])} = arg(a, {i});" for i, a in enumerate(inst["args"]))
+        decls = " ".join(f"let a{i}: {self.cty(a['ti'])} = arg(a, {i});" for i, a in enumerate(inst["args"]))
         call_args = ", ".join(f"a{i}" for i in range(len(inst["args"])))
         arm("mtp:instantiate",
             f"{decls} let key = format!(\"cid:{{}}:{pn}:{{}}\", a[\"world\"], a[\"code_id\"]); "
@@ -543,10 +590,10 @@ class R:
             for h in part["handlers"]:
                 if not h["safe"] or h["kind"] not in ("exec", "query", "sudo", "migrate"):
                     continue
-                decls = " ".join(f"let a{i}: {self.ty(a['ti'])} = arg(a, {i});" for i, a in enumerate(h["args"]))
+                decls = " ".join(f"let a{i}: {self.cty(a['ti'])} = arg(a, {i});" for i, a in enumerate(h["args"]))
                 call_args = ", ".join(f"a{i}" for i in range(len(h["args"])))
                 pre = (f"{use} {app} {decls} svmon::set_plan(svmon::plan_from_json(&a[\"plan\"])); "
-                       f"let px = {sv}::multitest::Proxy::<{BA}, {self.cid}>::new(Addr::unchecked(a[\"addr\"].as_str().unwrap()), app); ")
+                       f"let px = {sv}::multitest::Proxy::<{BA}, {self.ct}>::new(Addr::unchecked(a[\"addr\"].as_str().unwrap()), app); ")
                 if h["kind"] == "exec":
                     body = ("let funds = coins_of(&a[\"funds\"]); let sender = Addr::unchecked(a[\"sender\"].as_str().unwrap()); "
                             f"let b = px.{h['name']}({call_args}); let b = if a[\"funds\"].is_null() {{ b }} else {{ b.with_funds(&funds) }}; "
@@ -566,7 +613,7 @@ class R:
         assoc = [f"Error = {part['error']}"]
         if part["custom_mode"] == "assoc":
             assoc += [f"ExecC = {cm(p)}", f"QueryC = {cq(p)}"]
-        for (n, t) in part.get("assoc", []):
+        for (n, t) in part.get("assoc_concrete", part.get("assoc", [])):
             assoc.append(f"{n} = {t}")
         return f"dyn {part['module']}::{part['trait']}<{', '.join(assoc)}>"
 
@@ -577,30 +624,30 @@ class R:
         M, Q = cm(p), cq(p)
         # ---- C16
         for i, t in enumerate(p["types"]):
-            arm(f"schema_ty:{i}", f"cw_schema_json::<{t.rust}>()")
+            arm(f"schema_ty:{i}", f"cw_schema_json::<{t.concrete}>()")
         for part in p["parts"]:
             arm(f"schemas:{part['id']}", f"schemas::<{self.msg_path(part, 'query')}>()")
             arm(f"schema_for:{part['id']}", f"schema_json::<{self.msg_path(part, 'query')}>()")
-        arm("schemas:w", "schemas::<sv::ContractQueryMsg>()")
+        arm("schemas:w", f"schemas::<{self.wrap_path('query')}>()")
         for kind in KINDS_ENUM:
-            arm(f"schema_for:w:{kind}", f"schema_json::<sv::{WRAP_OF[kind]}>()")
+            arm(f"schema_for:w:{kind}", f"schema_json::<{self.wrap_path(kind)}>()")
             for part in p["parts"]:
                 arm(f"schema_for:{part['id']}:{kind}", f"schema_json::<{self.msg_path(part, kind)}>()")
         # ---- C20
-        arm("remote:c", f"remote_probe::<{self.cid}>(a)")
+        arm("remote:c", f"remote_probe::<{self.ct}>(a)")
         for part in p["parts"][1:]:
             arm(f"remote:{part['id']}", f"remote_probe::<{self.dyn_iface(part)}>(a)")
         # ---- C10 executors / queriers
         for part in p["parts"]:
             pid = part["id"]
             if pid == "c":
-                targets = [("c", self.cid, "sv")]
+                targets = [("c", self.ct, "sv")]
             else:
-                targets = [("c", self.cid, f"{part['module']}::sv"), ("dyn", self.dyn_iface(part), f"{part['module']}::sv")]
+                targets = [("c", self.ct, f"{part['module']}::sv"), ("dyn", self.dyn_iface(part), f"{part['module']}::sv")]
             for h in part["handlers"]:
                 if not h["safe"] or h["kind"] not in ("exec", "query"):
                     continue
-                decls = " ".join(f"let a{i}: {self.ty(a['ti'])} = arg(a, {i});" for i, a in enumerate(h["args"]))
+                decls = " ".join(f"let a{i}: {self.cty(a['ti'])} = arg(a, {i});" for i, a in enumerate(h["args"]))
                 call_args = ", ".join(f"a{i}" for i in range(len(h["args"])))
                 for tname, tty, modp in targets:
                     for own in ("owned", "borrowed"):
@@ -615,14 +662,14 @@ class R:
                             deps = "c.deps.as_ref()"
                             arm(f"query_helper:{h['hid']}:{tname}:{own}",
                                 f"use {modp}::Querier as _; {decls} let addr = Addr::unchecked(a[\"addr\"].as_str().unwrap()); {mk} "
-                                f"let c = ctx::<{Q}>(a); let k = {self.cid}::new(); "
+                                f"let c = ctx::<{Q}>(a); let k = {self.ct}::new(); "
                                 f"let rq = RecQuerier::new(|_addr, msg| {sv}::cw_multi_test::Contract::<{M}, {Q}>::query(&k, {deps}, c.env.clone(), msg.to_vec()).map_err(|e| format!(\"{{e:#}}\"))); "
                                 f"let qw = {sv}::cw_std::QuerierWrapper::<{Q}>::new(&rq); "
                                 f"let r = remote.querier(&qw).{h['name']}({call_args}).map(|v| json!({{\"value\": j(&v)}})).map_err(herr); "
                                 f"let mut out = finish_plain(r); out[\"requests\"] = svmon::serde_json::Value::Array(rq.log.borrow().clone()); out")
         # ---- C10 instantiate builder
         inst = [h for h in p["parts"][0]["handlers"] if h["kind"] == "instantiate"][0]
-        decls = " ".join(f"let a{i}: {self.ty(a['ti'])} = arg(a, {i});" for i, a in enumerate(inst["args"]))
+        decls = " ".join(f"let a{i}: {self.cty(a['ti'])} = arg(a, {i});" for i, a in enumerate(inst["args"]))
         call_args = "".join(f", a{i}" for i in range(len(inst["args"])))
         snake = "".join(("_" + ch.lower()) if ch.isupper() and i else ch.lower() for i, ch in enumerate(self.cid))
         arm("inst_builder",
